@@ -245,6 +245,14 @@ class FakeTime:
         return getattr(_real_time, name)
 
 
+def spec_key(key: bytes) -> bytes:
+    """Which AEAD key an operator key *is*, as documented — NOT read from the implementation: a 32-byte key is itself,
+    any other length is SHA-256 of the whole key.  Two operator keys are "the same key" only if these are equal."""
+    import hashlib
+
+    return key if len(key) == 32 else hashlib.sha256(key).digest()
+
+
 class Recorder:
     """Everything `crypto.seal_bytes` ever produced in this process: envelope → (key, aad, version, payload)."""
 
@@ -254,14 +262,14 @@ class Recorder:
         self._orig = _crypto.seal_bytes
 
     def key_id(self, key: bytes) -> int:
-        nk = _crypto.normalize_key(key)
+        nk = spec_key(key)
         if nk not in self.key_ids:
             self.key_ids[nk] = len(self.key_ids) + 1
         return self.key_ids[nk]
 
     def seal(self, payload: bytes, key: bytes, *, aad: bytes, version: int = 1) -> bytes:
         env = self._orig(payload, key, aad=aad, version=version)
-        self.by_raw[env] = (_crypto.normalize_key(key), aad, version, payload, len(self.by_raw) + 1)
+        self.by_raw[env] = (spec_key(key), aad, version, payload, len(self.by_raw) + 1)
         return env
 
     def obs(self, wire: bytes | None) -> dict[str, Any] | None:
